@@ -235,6 +235,15 @@ def gen_scenario(r: random.Random, task: Optional[str] = None, n_frames: Optiona
         cfg["min_distance"] = r.choice([0.0, 0.0, 2.0])
     if r.random() < 0.4:
         cfg["max_matchable_radii"] = [round(r.uniform(1.0, 6.0), 2) for _ in range(nl)] if r.random() < 0.5 else round(r.uniform(1.0, 6.0), 2)
+    if r.random() < 0.12:
+        # thresholds of exactly zero are legal values ("any overlap" for IoU, "nothing" for a distance), not "unset"
+        zk = r.choice(["iou_2d_thresholds", "iou_3d_thresholds", "center_distance_thresholds", "plane_distance_thresholds", "max_matchable_radii"])
+        if zk == "max_matchable_radii":
+            cfg[zk] = [0.0 if (j == 0 or r.random() < 0.3) else round(r.uniform(1.0, 6.0), 2) for j in range(nl)]
+        elif isinstance(cfg[zk][0], list):
+            cfg[zk][0][r.randrange(nl)] = 0.0
+        else:
+            cfg[zk] = [[0.0 if (j == 0 or r.random() < 0.3) else cfg[zk][0] for j in range(nl)]]
     if r.random() < 0.3:
         cfg["confidence_threshold"] = round(r.uniform(0.0, 0.5), 2)
     if r.random() < 0.15:
@@ -266,7 +275,7 @@ def gen_scenario(r: random.Random, task: Optional[str] = None, n_frames: Optiona
         pf_labels = list(crit_labels) if r.random() < 0.6 else list(target)
         if "false_positive" not in pf_labels and r.random() < 0.3:
             pf_labels.append("false_positive")
-        pf = {"target_labels": pf_labels, "matching_threshold_list": [round(r.choice([0.05, 0.5, 1.0, 2.0, 5.0, 50.0]) * r.uniform(0.8, 1.2), 3) for _ in pf_labels]}
+        pf = {"target_labels": pf_labels, "matching_threshold_list": [round(r.choice([0.05, 0.5, 1.0, 2.0, 5.0, 50.0]) * r.uniform(0.8, 1.2), 3) if r.random() > 0.06 else 0.0 for _ in pf_labels]}
         passfail.append(pf)
     info = dict(task=task, n_frames=n_frames, n_tracks=n_tracks, merge=merge, far_ego=far_ego, wide=wide, policy=cfg["matching_label_policy"], fp_share=fp_share, pos_sig=pos_sig, p_switch=p_switch)
     return Scenario(task=task, frames=frames, cfg=cfg, critical=critical, passfail=passfail, info=info)
